@@ -356,6 +356,7 @@ theorem startHandler_hinv {s : S} (h : HInv s) (hl : s.lost = false) (hc : s.clo
   | quick => exact addHandler_hinv h hl _ (Or.inl rfl)
   | slow => exact addHandler_hinv h hl _ (Or.inr ⟨rfl, by simp⟩)
   | stubborn r => exact addHandler_hinv h hl _ (Or.inr ⟨rfl, by simp⟩)
+  | aborter => exact doAbort_hinv (addHandler_hinv h hl _ (Or.inl rfl))
   | closer fa =>
     simp only []
     rcases transportClose_cases
